@@ -212,7 +212,11 @@ func (g GenSchemaList) Less(i, j int) bool {
 
 	// If both properties have x-order defined, then the one with lower x-order is smaller
 	if okA && okB {
-		return a < b
+		if a != b {
+			return a < b
+		}
+		// same x-order: the one with lower lexicographic name is smaller
+		return g[i].Name < g[j].Name
 	}
 
 	// If only the first property has x-order defined, then it is smaller
